@@ -105,7 +105,11 @@ def expm_higham_2005(A):
     else:
         A_L1 = numpy.linalg.norm(A0, 1)
     ident = numpy.eye(A.shape[0])
-    if A_L1 < 1.495585217958292e-002:
+    if isinstance(A, algopy.Function) and A_L1 < 2.097847961257068e+000:
+        # a recorded graph is evaluated at other points too: the order must
+        # not depend on the value at which it is recorded
+        U,V = _expm_pade13(A, ident)
+    elif A_L1 < 1.495585217958292e-002:
         U,V = _expm_pade3(A, ident)
     elif A_L1 < 2.539398330063230e-001:
         U,V = _expm_pade5(A, ident)
